@@ -6,7 +6,8 @@ order:   specs/Threads.tla (interleavings of recorded thread programs) - see ver
 from verif.checks import mdibcommon, mirrorcommon
 
 
-ORDER_QUICK = [('W_metric_m1', 'W_metric_m2'), ('W_metric_m1', 'W_comp_vmd', 'W_descr_m1')]
+ORDER_QUICK = [('W_metric_m1', 'W_metric_m2'), ('W_metric_m1', 'W_comp_vmd', 'W_descr_m1'), ('W_rt', 'W_metric_m1'),
+               ('W_rt', 'W_ctx')]
 ORDER_THOROUGH = ORDER_QUICK + [('W_metric_m1', 'W_metric_m2', 'W_comp_vmd', 'W_ctx'), ('W_descr_m1', 'W_descr_ch', 'W_ctx'),
                                 ('W_metric_m1', 'W_metric_m1', 'W_metric_m2')]
 
@@ -77,7 +78,8 @@ def check(run, replay_path=None):
     # delivery order under concurrently writing threads (all interleavings of the recorded thread programs)
     from verif.checks.c07 import run_scenarios
     scenarios = run.pick(ORDER_QUICK, ORDER_THOROUGH)
-    run_scenarios(run, scenarios, run.pick(80, 1500), {'wire_in_version_order', 'request_answered'}, prefix='c04')
+    run_scenarios(run, scenarios, run.pick(80, 1500), {'wire_in_version_order', 'every_commit_reported_under_its_version', 'request_answered'},
+                  prefix='c04')
     # one round of the retrievability-driven periodic report loop against committing transactions: the copies it sends
     # are the states of the MdibVersion the report is labelled with
     periodic = [('P_periodic', 'W_ctx'), ('P_periodic', 'W_metric_m1'), ('P_periodic', 'W_alert_al'),
